@@ -921,7 +921,7 @@ KIND_WEIGHT = {"wrap:tuple": 0.15, "wrap:list": 0.3, "bytes->bytearray": 4.0, "r
 
 
 def mutate(rng, spec, prefer=None):
-    """One look-alike mutant: (kind, parent_kind, new_spec) or None.  The mutant is valid (builds)."""
+    """One look-alike mutant: (kind, parent_kind, new_spec, path of the mutated node) or None; it builds."""
     ns = list(nodes(spec))
     weights = [(4 if type(n[1][1]) is bytes else 2 if type(n[1][1]) in (bool, complex) else 1)
                if n[1][0] == "leaf" else (7 if n[1][0] in ("odict", "ddict") else 4) for n in ns]
@@ -942,5 +942,5 @@ def mutate(rng, spec, prefer=None):
             build(cand)
         except SpecInvalid:
             continue
-        return kind, (parent or "root"), cand
+        return kind, (parent or "root"), cand, path
     return None
